@@ -314,7 +314,7 @@ static void runCase(uint64_t caseSeed) {
     // ---- simulate, sampling energy and momentum at report times
     const double T = r.range(1.0, 2.5);
     const int NREP = 25;
-    struct Traj { std::vector<double> E, KE, PE, D; std::vector<SpatialVec> P; State fin; std::string fail; double maxR = 1; };
+    struct Traj { std::vector<double> E, KE, PE, D; std::vector<SpatialVec> P; State fin; std::string fail; double maxR = 1; int steps = 0; };
     auto runSim = [&](double accuracy, Traj& tr, bool wantFinal) {
         std::unique_ptr<Integrator> ig(makeIntegrator(integ, sys));
         ig->setAccuracy(accuracy);
@@ -342,14 +342,18 @@ static void runCase(uint64_t caseSeed) {
                 }
                 if (tr.fail.empty()) sample(ig->getState());
             }
+            tr.steps = ig->getNumStepsTaken();
             if (tr.fail.empty() && wantFinal) { tr.fin = ig->getState(); sys.realize(tr.fin, Stage::Acceleration); }
         } catch (const std::exception& e) { tr.fail = std::string("threw:") + e.what(); }
     };
     Traj tr;
     if (ncons < 0) tr.fail = "projectFailed"; else runSim(acc, tr, true);
     // second run of the SAME problem at accuracy/100 (conservative scenarios): the drift must come down with the accuracy
-    Traj tr2; const bool second = tr.fail.empty() && scn <= 2 && accExp + 2 <= accExp2Max;
+    Traj tr2; bool second = tr.fail.empty() && scn <= 2 && accExp + 2 <= accExp2Max;
     if (second) runSim(acc * 1e-2, tr2, false);
+    // the ratio is only meaningful if the accuracy actually governed the step size (not the report interval T/25)
+    bool reportLimited = second && tr2.fail.empty() && tr2.steps < 1.5 * tr.steps;
+    if (reportLimited) second = false;
     const bool failed = !tr.fail.empty(); const std::string failWhat = tr.fail;
     std::vector<double>&E = tr.E, &KEv = tr.KE, &PEv = tr.PE, &Dv = tr.D; std::vector<SpatialVec>& Pv = tr.P;
     const double maxR = tr.maxR; const State& finalState = tr.fin;
@@ -410,6 +414,7 @@ static void runCase(uint64_t caseSeed) {
     for (auto& t : M.tags) vh::D(t);
 
     if (std::getenv("C11_DUMP")) for (size_t i = 0; i < E.size(); ++i) std::fprintf(stderr, "  t%02d E=%.12g KE=%.6g PE=%.6g D=%.6g |P|=%.6g\n", (int)i, E[i], KEv[i], PEv[i], Dv[i], Pv[i][1].norm());
+    if (reportLimited) vh::D(std::string("second_run.stepsLimitedByReports.") + INTEG_NAMES[integ]);
     // ---- trajectory predicates
     const std::string IN = INTEG_NAMES[integ];
     const std::string ACC = ".1e-" + std::to_string(accExp);
